@@ -8,6 +8,7 @@ use crate::codec::*;
 use crate::serde_abs::{abs_close, canon, Abs};
 use crate::types_gen::*;
 use crate::with_family_type;
+use lexpr::Value;
 use rand::SeedableRng;
 use serde::de::DeserializeOwned;
 use serde::Serialize;
@@ -95,7 +96,8 @@ where
             match serde_lexpr::to_value(&x) {
                 Ok(v2) => match serde_lexpr::from_value::<T>(&v2) {
                     Ok(y) => {
-                        if y != x {
+                        // NaN is not equal to itself: fall back to the Debug rendering
+                        if y != x && format!("{:?}", y) != format!("{:?}", x) {
                             bad.push(format!("accepted value misread: {:?} serialises to {} which reads back as {:?}", x, v2, y));
                         }
                     }
@@ -158,6 +160,57 @@ fn judge_de(exp: &J, got: &J) -> Option<String> {
         }
         _ => None,
     }
+}
+
+/// Values chosen to stress every deserializer path (C18: "any value"): numbers at and beyond every width, non-finite
+/// floats, long and non-ASCII text in every text-like kind, and each of these wrapped the ways the Serde shapes wrap.
+fn hostile_values() -> Vec<Value> {
+    let mut atoms: Vec<Value> = Vec::new();
+    for f in [1e300, -1e300, 3.5e38, 1e39, -1e39, f64::MAX, f64::MIN_POSITIVE, 5e-324, f64::INFINITY, f64::NEG_INFINITY, f64::NAN,
+              16777217.0, 0.1, -0.0, 4294967296.0, 1e19, -9.3e18] {
+        atoms.push(Value::from(f));
+    }
+    for n in [u64::MAX, 1 << 63, (1 << 53) + 1, 4294967296, 65536, 256, 128] {
+        atoms.push(Value::from(n));
+    }
+    for n in [i64::MIN, -4294967297, -32769, -129, -1] {
+        atoms.push(Value::from(n));
+    }
+    let texts: Vec<String> = vec![
+        String::new(),
+        "a".repeat(40),
+        format!("{}\u{fc}berl\u{e4}nge", "a".repeat(31)),
+        format!("{}\u{20ac}x", "a".repeat(30)),
+        "\u{4e2d}\u{6587}".repeat(20),
+        "\u{1F600}".repeat(12),
+        "nil".into(),
+        "#t".into(),
+        "\u{0}\u{7f}\"\\".into(),
+    ];
+    for t in &texts {
+        atoms.push(Value::string(t.as_str()));
+        atoms.push(Value::symbol(t.as_str()));
+        atoms.push(Value::keyword(t.as_str()));
+    }
+    atoms.push(Value::Char('\u{10ffff}'));
+    atoms.push(Value::Char('\u{0}'));
+    atoms.push(Value::bytes((0..=255u8).collect::<Vec<u8>>()));
+    atoms.push(Value::Nil);
+    atoms.push(Value::Null);
+    atoms.push(Value::Bool(false));
+    let mut out = Vec::new();
+    for a in &atoms {
+        out.push(a.clone());
+        out.push(Value::list(vec![a.clone()]));
+        out.push(Value::list(vec![a.clone(), a.clone()]));
+        out.push(Value::cons(a.clone(), a.clone()));
+        out.push(Value::vector(vec![a.clone()]));
+        out.push(Value::list(vec![Value::cons(Value::symbol("a"), a.clone())]));
+        out.push(Value::list(vec![Value::cons(a.clone(), 1u32)]));
+        out.push(Value::list(vec![Value::symbol("B"), a.clone()]));
+        out.push(Value::cons(Value::symbol("A"), a.clone()));
+    }
+    out
 }
 
 /// cfg: {"cases_file": ndjson of rt / alt / any records, "seed", "random": n per type, "want": ["rt","alt","any"]}
@@ -234,8 +287,23 @@ pub fn run(cfg: &J) -> J {
             }
         }
     }
+    // hostile values into every type: never a panic, only data errors, accepted values survive their own round trip
+    let mut n_hostile = 0u64;
+    if cfg["hostile"].as_bool().unwrap_or(true) {
+        let hv = hostile_values();
+        for ti in 0..FAMILY.len() {
+            for v in &hv {
+                n_hostile += 1;
+                let vj = val_to_json(v);
+                let got = de_idx(ti, &vj);
+                for w in got["bad"].as_array().unwrap() {
+                    bad.push(json!({"rule":"deserialize","why":w,"ti":ti,"ty":FAMILY[ti],"v":vj}));
+                }
+            }
+        }
+    }
     let _ = (BTreeMap::<u8, u8>::new(), BTreeSet::<u8>::new());
-    json!({"bad": bad, "trace": trace, "rt": n_rt, "alt": n_alt, "any": n_any, "random": n_rand, "types": FAMILY.len()})
+    json!({"bad": bad, "trace": trace, "rt": n_rt, "alt": n_alt, "any": n_any, "random": n_rand, "hostile": n_hostile, "types": FAMILY.len()})
 }
 
 pub fn replay_case(case: &J) -> J {
